@@ -11,6 +11,7 @@ use vharness::*;
 
 const LOOKAHEAD: u64 = 65551 + 4; // longest frame + the 4 bytes of the next-marker test (Dlt/Chunk.v)
 const CL: u64 = 4096;
+const COST_BUDGET: u64 = 20_000_000;
 
 // ------------------------------------------------------------------ structurally described byte strings
 #[derive(Clone, Debug, Serialize, Deserialize, PartialEq)]
@@ -296,8 +297,12 @@ fn drain<R: BufRead>(start: u32, reader: R) -> IterObs {
         sizes,
     }
 }
-fn run_iter_rd(capacity: u64, low: u64, data: &Arc<Vec<u8>>, sched: &[u64], start: u32) -> Result<IterObs, String> {
-    catch_loc(AssertUnwindSafe(|| drain(start, LowMarkBufReader::new(Scripted::new(data.clone(), sched), capacity as usize, low as usize))))
+fn run_iter_rd(capacity: u64, low: u64, data: &Arc<Vec<u8>>, sched: &[u64], start: u32) -> (Result<IterObs, String>, u64) {
+    let src = Scripted::new(data.clone(), sched);
+    let reads = src.reads.clone();
+    let r = catch_loc(AssertUnwindSafe(|| drain(start, LowMarkBufReader::new(src, capacity as usize, low as usize))));
+    let n = *reads.lock().unwrap();
+    (r, n)
 }
 fn run_iter_whole(data: &Arc<Vec<u8>>, start: u32) -> Result<IterObs, String> {
     catch_loc(AssertUnwindSafe(|| drain(start, Cursor::new(&data[..]))))
@@ -570,6 +575,7 @@ fn record(sink: &mut Sink, c: CaseIn, extra_tags: &[&str]) {
     let id = sink.next_id();
     let input_json = serde_json::to_value(&c).unwrap();
     let mut tags: Vec<String> = extra_tags.iter().map(|s| s.to_string()).collect();
+    let mut cost: u64 = 0;
     let (input_coq, obs, verdict, nontrivial) = match &c {
         CaseIn::Trace { capacity, low, data, sched, ops } => {
             let bytes = Arc::new(expand(data));
@@ -600,8 +606,15 @@ fn record(sink: &mut Sink, c: CaseIn, extra_tags: &[&str]) {
         }
         CaseIn::Iter { capacity, low, data, sched, start, coq_rd, sched_kind, call_site } => {
             let bytes = Arc::new(expand(data));
-            let r = run_iter_rd(*capacity, *low, &bytes, sched, *start);
+            let (r, nreads) = run_iter_rd(*capacity, *low, &bytes, sched, *start);
             let w = run_iter_whole(&bytes, *start);
+            // rough cost of evaluating the model (lists): loop turns x window + reads x buffer
+            let turns = |x: &Result<IterObs, String>| x.as_ref().map(|o| o.msgs.len() as u64 + o.counters[2] + 1).unwrap_or(1);
+            cost = if *coq_rd {
+                turns(&r) * (bytes.len() as u64).min(*capacity) + nreads * *capacity
+            } else {
+                turns(&w) * bytes.len() as u64
+            };
             tags.push(format!("iter_sched_{}", sched_kind));
             tags.push(if *coq_rd { "iter_model_over_reader".into() } else { "iter_model_whole_buffer".into() });
             if *call_site {
@@ -648,6 +661,7 @@ fn record(sink: &mut Sink, c: CaseIn, extra_tags: &[&str]) {
             let b_pre = Arc::new(expand(prefix));
             let b_rest = Arc::new(expand(rest));
             let ra = run_iter_whole(&b_all, *start);
+            cost = ra.as_ref().map(|o| o.msgs.len() as u64 + o.counters[2] + 1).unwrap_or(1) * b_all.len() as u64;
             let rp = run_iter_whole(&b_pre, *start);
             let rr = run_iter_whole(&b_rest, *start + *nprefix);
             tags.push("position".into());
@@ -697,6 +711,18 @@ fn record(sink: &mut Sink, c: CaseIn, extra_tags: &[&str]) {
         }
     };
     let key = input_coq.clone();
+    if cost > COST_BUDGET {
+        // too expensive for the list-based model inside coqc: a passing case is dropped (and counted), a failing
+        // one is kept for the verdict with the empty trace as its model side
+        let n = sink.extra_stats.entry("dropped_model_too_costly".into()).or_insert(json!(0)).as_u64().unwrap_or(0);
+        sink.extra_stats.insert("dropped_model_too_costly".into(), json!(n + 1));
+        if let Verdict::Ok = verdict {
+            return;
+        }
+        tags.push("model_side_omitted".into());
+        sink.push(Case { id, input_coq: "CTrace 4097 1 [] [] []".into(), input_json, obs: O::T(vec![]), verdict, classes: vec![], tags, nontrivial, key });
+        return;
+    }
     sink.push(Case { id, input_coq, input_json, obs, verdict, classes: vec![], tags, nontrivial, key });
 }
 
@@ -857,8 +883,14 @@ fn gen_pos(rng: &mut Rng) -> CaseIn {
 
 /// DESIGN Appendix A, C04-1: one maximum-size storage frame with an embedded marker, garbage, a small frame
 fn witness_max_frame(rng: &mut Rng) -> Vec<Seg> {
-    let mut payload = vec![Seg::Rep(0x41, 100), Seg::Lit(b"DLT\x01".to_vec())];
-    payload.push(Seg::Rep(0x42, 65535 - 4 - 100 - 4));
+    // outer frame: 16 + 65535 bytes, htyp 0x20 (payload starts at 20).  At payload offset 100 an embedded storage
+    // frame that ends exactly where the outer one ends: 16 + len = 65551 - 120
+    let inner_len: u16 = (65551 - 120 - 16) as u16;
+    let mut inner = b"DLT\x01".to_vec();
+    inner.extend_from_slice(&[1, 0, 0, 0, 2, 0, 0, 0, b'E', b'C', b'U', b'9', 0x20, 7]);
+    inner.extend_from_slice(&inner_len.to_be_bytes());
+    let payload = vec![Seg::Rep(0x41, 100), Seg::Lit(inner), Seg::Rep(0x42, inner_len as u64 - 4)];
+    assert_eq!(segs_len(&payload), 65531);
     let mut v = frame(rng, true, 0x20, payload, None);
     v.push(Seg::Lit(vec![1, 2, 3, 4, 5, 6, 7, 8]));
     v.extend(frame(rng, true, 0x20, vec![Seg::Lit(vec![9, 9, 9, 9, 9])], None));
